@@ -325,7 +325,12 @@ def install(it):
                     raise_("TypeError", "'float' object cannot be interpreted as an integer")
                 if not ctx.branch(shape >= 0):
                     raise_("ValueError", "negative dimensions are not allowed")
-                return SymArr(shape, lambda i: v)
+                arr = SymArr(shape, lambda i: v)
+                if (not is_z3(v)) and not isinstance(v, Cx):
+                    arr.const = (v, arr.elem)       # valid only while elem is this very function
+                if isinstance(dtype, BuiltinClass) and "complex" in dtype.name:
+                    arr.dtype_complex = True
+                return arr
             if isinstance(shape, Fraction):
                 raise_("TypeError", "'float' object cannot be interpreted as an integer")
             raise Unsupported("np.zeros(%r)" % (shape,))
